@@ -717,6 +717,7 @@ def chain_and_seams(ctx):
 
 
 def run(ctx):
+    C.config_matrix(ctx["report"], ctx["rundir"], "C07", ["[1,2] * 2", "1 ± 0.1", "[-1,1] ^ 2", "sqrt([4,9])", "[1,2] < 3", "2 in [1,3]", "[2,2] == 2", "[2,2] != 2", "abs([-1.5e-200, 2.5e-200])", "[0.1+0.2, 1] + 0", "1 <= [1,2]"])
     chain_and_seams(ctx)
     rep, tier, seed = ctx["report"], ctx["tier"], ctx["seed"]
     rng = random.Random(seed * 104729 + 7)
